@@ -59,3 +59,78 @@ def update_along_hook(fname='nv_state_update_along'):
         P.pending_throw = False
         return f'{fname}({selfexpr}, {P.addr(origin)}, {P.expr(step)}, {P.addr(direction)})'
     return h
+
+
+def lambda_arg(n):
+    """the LambdaExpr an argument expression is (looking through temporaries / casts), else None"""
+    u = n
+    while isinstance(u, dict) and u.get('kind') in ('MaterializeTemporaryExpr', 'CXXBindTemporaryExpr', 'ExprWithCleanups',
+                                                    'ImplicitCastExpr', 'CXXFunctionalCastExpr', 'CXXConstructExpr') \
+            and len(u.get('inner', [])) == 1:
+        u = u['inner'][0]
+    return u if isinstance(u, dict) and u.get('kind') == 'LambdaExpr' else None
+
+
+def lambda_captures(lam):
+    """[(captured variable name or None, init expression, field type)] of a LambdaExpr, in capture order.
+    clang lists the closure record first, then one initialiser per capture, then the body."""
+    inner = lam.get('inner', [])
+    rec = inner[0]
+    fields = [f for f in rec.get('inner', []) if f.get('kind') == 'FieldDecl']
+    inits = inner[1:-1]
+    if len(fields) != len(inits):
+        raise Unsupported(f'lambda with {len(fields)} closure fields and {len(inits)} capture initialisers')
+    out = []
+    for f, e in zip(fields, inits):
+        u = unwrap(e)
+        while u.get('kind') == 'CXXConstructExpr' and len(u.get('inner', [])) == 1:
+            u = unwrap(u['inner'][0])
+        name = u['referencedDecl']['name'] if u.get('kind') == 'DeclRefExpr' else ('this' if u.get('kind') == 'CXXThisExpr' else None)
+        out.append((name, e, f['type']))
+    return out
+
+
+def task_lambda_hook(method, stub, names):
+    """obj.<method>([.., <names>..](..) {..})  ->  stub(&obj, <all named captures are by copy>, <value of each named capture>)
+
+    A lambda handed to a task queue is modelled by the values it captures: the stub's assumed contract records them in
+    ghost state, the body of the lambda is a separate extracted function (Fn(..., lambda_index=k)) whose extra
+    parameters are the same named captures.  Every capture that is not named must be of class type (an opaque
+    callable); a scalar capture that the spec does not name is an extraction error, never silently dropped."""
+    def h(P, n):
+        if n.get('kind') != 'CXXMemberCallExpr':
+            return None
+        me = n['inner'][0]
+        if me.get('kind') != 'MemberExpr' or me.get('name') != method or len(n['inner']) != 2:
+            return None
+        lam = lambda_arg(n['inner'][1])
+        if lam is None:
+            return None
+        caps = lambda_captures(lam)
+        byname = {}
+        for name, e, ft in caps:
+            q = strip_cv(qual(ft))
+            if name in names:
+                byname[name] = (e, ft)
+                continue
+            try:
+                c = P.ctype_q(q.rstrip('&').strip())
+            except Unsupported:
+                continue            # class-type capture (opaque callable / object): not part of the model
+            if c.startswith('struct '):
+                continue            # modelled class type (opaque callable): identity is not part of the task model
+            raise Unsupported(f'lambda passed to {method} captures scalar {name!r} that the spec does not name')
+        missing = [x for x in names if x not in byname]
+        if missing:
+            raise Unsupported(f'lambda passed to {method} does not capture {missing}')
+        by_copy = all(not byname[x][1].get('qualType', '').rstrip().endswith('&') for x in names)
+        obj = me['inner'][0]
+        selfexpr = P.expr(obj) if me.get('isArrow') else P.addr(obj)
+        P.note(f'{method}(lambda capturing {", ".join(names)}) -> {stub}')
+        vals = []
+        for x in names:
+            e, ft = byname[x]
+            u = unwrap(e)
+            vals.append(P.expr(u) if ft.get('qualType', '').rstrip().endswith('&') else P.expr(e))
+        return f'{stub}({selfexpr}, {1 if by_copy else 0}, {", ".join(vals)})'
+    return h
